@@ -331,6 +331,27 @@ pub fn seal(packet: &NPacket, protocol: u64, seq: u64, key: &[u8; 32]) -> Vec<u8
     }
 }
 
+/// A datagram of any kind with ANY body, sealed the way the library seals (ChaCha20-Poly1305, nonce = sequence, associated data =
+/// version string, protocol id, prefix byte): what a peer that holds the session key can put on the wire if it does not care about
+/// the body formats.
+pub fn seal_raw(kind: u8, seq: u64, body: &[u8], protocol: u64, key: &[u8; 32]) -> Vec<u8> {
+    use chacha20poly1305::{AeadInPlace, ChaCha20Poly1305, Key, KeyInit, Nonce};
+    let seqlen = ((64 - seq.leading_zeros() as usize + 7) / 8).max(1);
+    let prefix = (kind & 0x0F) | ((seqlen as u8) << 4);
+    let mut out = vec![prefix];
+    out.extend_from_slice(&seq.to_le_bytes()[..seqlen]);
+    let mut aad = b"NETCODE 1.02\0".to_vec();
+    aad.extend_from_slice(&protocol.to_le_bytes());
+    aad.push(prefix);
+    let mut b = body.to_vec();
+    let mut nonce = [0u8; 12];
+    nonce[4..].copy_from_slice(&seq.to_le_bytes());
+    let tag = ChaCha20Poly1305::new(Key::from_slice(key)).encrypt_in_place_detached(Nonce::from_slice(&nonce), &aad, &mut b).expect("sealing in memory");
+    out.extend_from_slice(&b);
+    out.extend_from_slice(&tag);
+    out
+}
+
 #[derive(Debug, Clone, Hash, PartialEq, Eq)]
 pub enum Mutation {
     None,
